@@ -102,7 +102,7 @@ def checks_for(rel):
     elif fn == 'order.rs':
         cs = ['C10'] + (['C11', 'C08'] if directed else []) + ['C20']
     elif fn == 'path.rs':
-        cs = ['C04', 'C05', 'C06', 'C19']
+        cs = ['C09', 'C04', 'C05', 'C06', 'C19']
     elif fn == 'method.rs':
         cs = ['C09', 'C07']
     elif fn == 'graph_serde.rs':
